@@ -286,7 +286,8 @@ impl StringPool {
             writer.write_u16::<LittleEndian>((length & 0xffff) as u16)?;
             writer.write_u16::<LittleEndian>(refcount)?;
         }
-        Ok(())
+        // (Flush explicitly, since dropping a buffered writer discards errors.)
+        writer.flush()
     }
 
     /// Writes to the `_StringData` table.
@@ -294,7 +295,8 @@ impl StringPool {
         for (string, _) in self.strings.iter() {
             writer.write_all(&self.codepage.encode(string.as_str()))?;
         }
-        Ok(())
+        // (Flush explicitly, since dropping a buffered writer discards errors.)
+        writer.flush()
     }
 }
 
